@@ -9,6 +9,7 @@ import PlatypusModel.Model.Sorting
 import PlatypusModel.Model.Crowding
 import PlatypusModel.Model.Grid
 import PlatypusModel.Model.Run
+import PlatypusModel.Model.GenStep
 import PlatypusModel.Model.Survival
 import PlatypusModel.Model.SPEA2
 import PlatypusModel.Model.NSGA3
@@ -248,6 +249,15 @@ def opsRun (op : String) : Option (P String) :=
       let n ← nat; let stepSize ← nat; let start ← nat
       let (fin, k) := run (fun x => x + stepSize) id n start
       pure s!"{k} {fin}"
+  | "genrun" => some do   -- the generational step model over the offspring counts of a whole run: state after each step
+      let style ← nat; let popSize ← nat; let offSize ← nat; let steps ← nat; let counts ← list nat
+      let st : GenStyle := match style with | 0 => .whileMerge | 1 => .whileFittest | 2 => .callsMerge | _ => .oneCallKeep
+      let c : GenCfg := { style := st, popSize := popSize, offSize := offSize }
+      let sizes : Nat → Nat := fun i => counts.getD i 1
+      let rec go : Nat → GenState → List String → List String
+        | 0, _, acc => acc.reverse
+        | k + 1, s, acc => let s' := genStep c sizes s; go k s' (s!"{s'.nfe}:{s'.pos}:{s'.pop}" :: acc)
+      pure (" ".intercalate (go steps { nfe := 0, pos := 0, pop := 0 } []))
   | "evalall" => some do
       let flags ← list bool
       let (calls, inc) := evalAll flags
